@@ -126,6 +126,9 @@ func run(repo, verif, out string) error {
 		if len(p.Errors) > 0 {
 			return fmt.Errorf("package %s: %v", p.PkgPath, p.Errors[0])
 		}
+		if err := genGlobalsSaver(p, repo, gen, overlay); err != nil {
+			return err
+		}
 		for i, f := range p.Syntax {
 			path := p.CompiledGoFiles[i]
 			if !strings.HasPrefix(path, repo+"/") {
@@ -639,3 +642,56 @@ func (c *fileCtx) rewriteMapRange(r *ast.RangeStmt) ast.Stmt {
 }
 
 var _ = sort.Strings
+
+// genGlobalsSaver adds, to every package of the repository that has package-level variables, a generated file
+// whose init registers a saver with the scheduler: a shallow copy of every package-level variable, and a function
+// that writes the copies back (see sched.SnapshotGlobals).
+func genGlobalsSaver(p *packages.Package, repo, gen string, overlay map[string]string) error {
+	if len(p.CompiledGoFiles) == 0 || p.Types == nil {
+		return nil
+	}
+	dir := filepath.Dir(p.CompiledGoFiles[0])
+	if !strings.HasPrefix(dir, repo+"/lambda") && !strings.HasPrefix(dir, repo+"/cmd") {
+		return nil
+	}
+	var names []string
+	for _, f := range p.Syntax {
+		for _, d := range f.Decls {
+			gd, ok := d.(*ast.GenDecl)
+			if !ok || gd.Tok != token.VAR {
+				continue
+			}
+			for _, sp := range gd.Specs {
+				for _, n := range sp.(*ast.ValueSpec).Names {
+					if n.Name != "_" {
+						names = append(names, n.Name)
+					}
+				}
+			}
+		}
+	}
+	if len(names) == 0 {
+		return nil
+	}
+	sort.Strings(names)
+	var sb strings.Builder
+	fmt.Fprintf(&sb, "// Code generated by vinstr; DO NOT EDIT.\n\npackage %s\n\nimport _vsched %q\n\nfunc init() {\n\t_vsched.RegisterGlobals(func() func() {\n", p.Name, rtPrefix+"sched")
+	for i, n := range names {
+		fmt.Fprintf(&sb, "\t\t_s%d := %s\n", i, n)
+	}
+	sb.WriteString("\t\treturn func() {\n")
+	for i, n := range names {
+		fmt.Fprintf(&sb, "\t\t\t%s = _s%d\n", n, i)
+	}
+	sb.WriteString("\t\t}\n\t})\n}\n")
+	rel := strings.TrimPrefix(dir, repo+"/")
+	dst := filepath.Join(gen, rel, "zz_verif_globals.go")
+	if err := os.MkdirAll(filepath.Dir(dst), 0o755); err != nil {
+		return err
+	}
+	if err := os.WriteFile(dst, []byte(sb.String()), 0o644); err != nil {
+		return err
+	}
+	overlay[filepath.Join(dir, "zz_verif_globals.go")] = dst
+	return nil
+}
